@@ -94,7 +94,7 @@ func rulesC04(c *Ctx) {
 			okR := false
 			for _, v := range g.callVertices(retireObj) {
 				rc := call.CallsIn(g.Node(v), retireObj, false)[0]
-				if g.Dominates(v, rv) && len(rc.Args) == 2 && call.ObjOf(rc.Args[0]) == acVar && cc.Pos() <= rc.Pos() && rc.End() <= cc.End() {
+				if g.Dominates(v, rv) && len(rc.Args) == 2 && call.ObjOf(rc.Args[0]) == acVar && encloses(cc, rc) {
 					okR = true
 				}
 			}
@@ -107,7 +107,7 @@ func rulesC04(c *Ctx) {
 					if _, isGo := n.(*ast.GoStmt); isGo {
 						continue
 					}
-					if cc.Pos() <= n.Pos() && n.End() <= cc.End() && !isDebug(g.GuardsAt(v)) && g.ReachableFrom(v)[rv] {
+					if encloses(cc, n) && !isDebug(g.GuardsAt(v)) && g.ReachableFrom(v)[rv] {
 						blocked = true
 					}
 				}
